@@ -335,7 +335,7 @@ fn main() {
     ck.assume("runs that fail or panic in Operator::run are outside the property (counted under base:*)");
     ck.set_threads(12);
     let profile = Profile::all_ops();
-    let n = ck.pick(400_000, 3_000_000);
+    let n = ck.pick(500_000, 3_000_000);
     ck.prop_export("ops", n, || op_case(1, 2), |c| oracle_ops(&profile, c), |c| c.export(&profile));
     ck.prop_export("graph", n / 6, || op_case(2, 10), |c| oracle_graph(&profile, c), |c| c.export(&profile));
     let general = Profile::general();
